@@ -49,6 +49,11 @@ Fixpoint paints (glyphs : bool) (v : vtree) (t : ltree) (w : window) {struct v} 
       | DCt c, k :: _ => paints glyphs (build c) k (win_apply w t)
       | _, _ => []
       end
+  | VRef (Some v') =>
+      match l_data t, l_kids t with
+      | DRef, k :: _ => paints glyphs v' k (win_apply w t)
+      | _, _ => []
+      end
   | _ => []
   end.
 
@@ -118,9 +123,9 @@ Section Paint.
           match type of Her with (let* d' := erase ?area _ _ in _) = _ =>
             assert (Harea : exists warea, Rep H W area warea) end.
           { destruct d.
-            - destruct (rep_subview H W sub wsub Full (Rng (Z.of_N (l_col k)) (Z.of_N (l_col k + l_ww k))) Hmax Hsub I (usel_rng _ _))
+            - destruct (rep_subview H W sub wsub Full (Rng (Z.of_N (l_col k)) (Z.of_N (sat_addN (l_col k) (l_ww k)))) Hmax Hsub I (usel_rng _ _))
                 as (w' & R & _). eauto.
-            - destruct (rep_subview H W sub wsub (Rng (Z.of_N (l_row k)) (Z.of_N (l_row k + l_hh k))) Full Hmax Hsub (usel_rng _ _) I)
+            - destruct (rep_subview H W sub wsub (Rng (Z.of_N (l_row k)) (Z.of_N (sat_addN (l_row k) (l_hh k)))) Full Hmax Hsub (usel_rng _ _) I)
                 as (w' & R & _). eauto. }
           destruct Harea as (warea & Rarea).
           match type of Her with (let* d' := erase ?area _ _ in _) = _ =>
@@ -168,7 +173,7 @@ Section Paint.
     - destruct (l_kids t) as [|k ks]; [discriminate|].
       destruct (IHv k (apply_to sh t) (win_apply w t) s s' Rsub Hlen E) as (L & EL & RL). exists L. auto.
     - injection E as <-. apply nolog.
-    - destruct (l_data t) as [| |c]; try discriminate. destruct (l_kids t) as [|k ks]; [discriminate|].
+    - destruct (l_data t) as [| |c|]; try discriminate. destruct (l_kids t) as [|k ks]; [discriminate|].
       destruct (H0 c k (apply_to sh t) (win_apply w t) s s' Rsub Hlen E) as (L & EL & RL). exists L. auto.
     - eapply lift_nolog; eauto.
     - injection E as <-. apply nolog.
@@ -180,19 +185,25 @@ Section Paint.
     - (* probe *)
       destruct (fill_cells _ _ _) as [d1| | |]; try discriminate. cbn [bind] in E. injection E as <-. cbn.
       exists [(id, apply_to sh t)]. split; [reflexivity|]. constructor; [|constructor]. split; [reflexivity|exact Rsub].
+    - eapply lift_nolog; eauto.
+    - eapply lift_nolog; eauto.
+    - injection E as <-. apply nolog.
+    - destruct (l_data t); try (injection E as <-; apply nolog).
+      destruct (l_kids t) as [|k ks]; [discriminate|].
+      destruct (IHv k (apply_to sh t) (win_apply w t) s s' Rsub Hlen E) as (L & EL & RL). exists L. auto.
   Qed.
 End Paint.
 
 (* ---------- FindPath ---------- *)
 Definition contains (k : ltree) (r c : N) : Prop :=
-  (l_col k <= c /\ c < l_col k + l_ww k /\ l_row k <= r /\ r < l_row k + l_hh k)%N.
+  (l_col k <= c /\ c < sat_addN (l_col k) (l_ww k) /\ l_row k <= r /\ r < sat_addN (l_row k) (l_hh k))%N.
 
 Lemma find_child_spec kids : forall i r c j k, find_child kids i r c = Some (j, k) ->
   i <= j /\ nth_error kids (j - i) = Some k /\ contains k r c /\
   (forall m k', m < j - i -> nth_error kids m = Some k' -> ~ contains k' r c).
 Proof.
   induction kids as [|k0 rest IH]; intros i r c j k; cbn [find_child]; [discriminate|].
-  destruct ((l_col k0 <=? c)%N && (c <? l_col k0 + l_ww k0)%N && (l_row k0 <=? r)%N && (r <? l_row k0 + l_hh k0)%N) eqn:E.
+  destruct ((l_col k0 <=? c)%N && (c <? sat_addN (l_col k0) (l_ww k0))%N && (l_row k0 <=? r)%N && (r <? sat_addN (l_row k0) (l_hh k0))%N) eqn:E.
   - intros [= <- <-]. rewrite Nat.sub_diag. split; [lia|]. split; [reflexivity|]. split.
     + apply andb_true_iff in E as [E E4]. apply andb_true_iff in E as [E E3]. apply andb_true_iff in E as [E1 E2].
       unfold contains. rewrite N.leb_le in E1, E3. rewrite N.ltb_lt in E2, E4. auto.
@@ -208,7 +219,7 @@ Qed.
 Lemma find_child_none kids : forall i r c, find_child kids i r c = None -> forall k, In k kids -> ~ contains k r c.
 Proof.
   induction kids as [|k0 rest IH]; intros i r c Hf k Hin; [contradiction|]. cbn [find_child] in Hf.
-  destruct ((l_col k0 <=? c)%N && (c <? l_col k0 + l_ww k0)%N && (l_row k0 <=? r)%N && (r <? l_row k0 + l_hh k0)%N) eqn:E;
+  destruct ((l_col k0 <=? c)%N && (c <? sat_addN (l_col k0) (l_ww k0))%N && (l_row k0 <=? r)%N && (r <? sat_addN (l_row k0) (l_hh k0))%N) eqn:E;
     [discriminate|].
   destruct Hin as [<-|Hin]; [|eapply IH; eauto].
   unfold contains. intros (A & B & C & D).
